@@ -256,12 +256,21 @@ func (r *Route) goodInfo() {
 		goutil.Panicf("the route allowed methods cannot be empty.(path: '%s')", r.path)
 	}
 
-	str := MethodsString()
 	for _, method := range r.methods {
-		if strings.Index(","+str+",", ","+method+",") == -1 {
-			goutil.Panicf("invalid method name '%s', must in: %s", method, str)
+		if !isValidMethod(method) {
+			goutil.Panicf("invalid method name '%s', must in: %s", method, MethodsString())
 		}
 	}
+}
+
+// isValidMethod check the name is one of the supported methods.
+func isValidMethod(name string) bool {
+	for _, method := range anyMethods {
+		if method == name {
+			return true
+		}
+	}
+	return false
 }
 
 // check custom var regex string.
